@@ -49,6 +49,73 @@ func modulePath(src string) string {
 	return ""
 }
 
+var syncMethods = map[string]bool{
+	"Load": true, "Store": true, "Swap": true, "CompareAndSwap": true, "LoadOrStore": true, "LoadAndDelete": true,
+	"CompareAndDelete": true, "Lock": true, "Unlock": true, "RLock": true, "RUnlock": true, "TryLock": true, "TryRLock": true,
+	"Do": true, "Put": true, "Wait": true, "Signal": true, "Broadcast": true,
+}
+
+// touchesSync: the statement itself (not the statements nested in its blocks or function literals)
+// syntactically uses a synchronisation primitive: a method with a name from sync / sync/atomic
+// (Load, Store, Lock, ..., Pool.Put; Get and Add are left out, they are everywhere), a function of
+// package atomic, a channel operation, a go statement or a select. There is no type information at
+// this point; false positives merely add candidate preemption points.
+func touchesSync(s ast.Stmt) bool {
+	found := false
+	switch s.(type) {
+	case *ast.GoStmt, *ast.SelectStmt, *ast.SendStmt:
+		return true
+	}
+	ast.Inspect(s, func(n ast.Node) bool {
+		if found {
+			return false
+		}
+		switch x := n.(type) {
+		case *ast.BlockStmt, *ast.FuncLit:
+			return false
+		case *ast.UnaryExpr:
+			if x.Op == token.ARROW {
+				found = true
+			}
+		case *ast.CallExpr:
+			if sel, ok := x.Fun.(*ast.SelectorExpr); ok {
+				if syncMethods[sel.Sel.Name] {
+					found = true
+				}
+				if id, ok := sel.X.(*ast.Ident); ok && id.Name == "atomic" {
+					found = true
+				}
+			}
+		}
+		return true
+	})
+	return found
+}
+
+// lockCall: +1 for a statement `x.Lock()` / `x.RLock()`, -1 for `x.Unlock()` / `x.RUnlock()`
+// (expression statements only; a deferred unlock keeps the section open to the end of the list).
+func lockCall(s ast.Stmt) int {
+	es, ok := s.(*ast.ExprStmt)
+	if !ok {
+		return 0
+	}
+	c, ok := es.X.(*ast.CallExpr)
+	if !ok {
+		return 0
+	}
+	sel, ok := c.Fun.(*ast.SelectorExpr)
+	if !ok {
+		return 0
+	}
+	switch sel.Sel.Name {
+	case "Lock", "RLock":
+		return 1
+	case "Unlock", "RUnlock":
+		return -1
+	}
+	return 0
+}
+
 type pkgInfo struct {
 	dir, name string
 	vars      []string
@@ -61,6 +128,7 @@ func main() {
 	src, dst, rtdir := os.Args[1], os.Args[2], os.Args[3]
 	modpath := modulePath(src)
 	site := 0
+	var syncSites, critSites []int
 	table := []string{"\"\""}
 	pkgs := map[string]*pkgInfo{}
 	var files []string
@@ -118,10 +186,37 @@ func main() {
 				}
 			}
 			var offs []int
+			syncAt := map[int]bool{}
+			critFrom := map[int]bool{}
 			addList := func(list []ast.Stmt) {
+				held := 0
 				for _, s := range list {
 					// a labeled statement must keep its label directly attached; yield before the label
-					offs = append(offs, fset.Position(s.Pos()).Offset)
+					o := fset.Position(s.Pos()).Offset
+					offs = append(offs, o)
+					if touchesSync(s) {
+						syncAt[o] = true
+					}
+					// lexical critical section: after `x.Lock()` / `x.RLock()` until the matching
+					// `x.Unlock()` statement of the same list, or the end of the list (defer x.Unlock())
+					if held > 0 {
+						critFrom[o] = true
+						// everything nested in this statement is inside the section too
+						ast.Inspect(s, func(n ast.Node) bool {
+							if st, ok := n.(ast.Stmt); ok {
+								critFrom[fset.Position(st.Pos()).Offset] = true
+							}
+							return true
+						})
+					}
+					switch lockCall(s) {
+					case 1:
+						held++
+					case -1:
+						if held > 0 {
+							held--
+						}
+					}
 				}
 			}
 			skip := map[*ast.BlockStmt]bool{}
@@ -152,6 +247,12 @@ func main() {
 				site++
 				pos := fset.Position(token.Pos(fset.File(f.Pos()).Base() + o))
 				table = append(table, strconv.Quote(fmt.Sprintf("%s:%d:%d", filepath.ToSlash(rel), pos.Line, pos.Column)))
+				if syncAt[o] {
+					syncSites = append(syncSites, site)
+				}
+				if critFrom[o] {
+					critSites = append(critSites, site)
+				}
 				fmt.Fprintf(&out, "verifrt.Y(%d); ", site)
 				last = o
 			}
@@ -221,9 +322,17 @@ func main() {
 	for _, t := range table {
 		fmt.Fprintf(&b, "\t%s,\n", t)
 	}
+	fmt.Fprintf(&b, "}\n\n// SyncSites: statements that (syntactically) use a synchronisation primitive.\nvar SyncSites = []int32{")
+	for _, x := range syncSites {
+		fmt.Fprintf(&b, "%d, ", x)
+	}
+	fmt.Fprintf(&b, "}\n\n// CritSites: statements lexically inside a Lock()...Unlock() section.\nvar CritSites = []int32{")
+	for _, x := range critSites {
+		fmt.Fprintf(&b, "%d, ", x)
+	}
 	fmt.Fprintf(&b, "}\n")
 	if err := os.WriteFile(filepath.Join(rdst, "zz_sites.go"), b.Bytes(), 0o644); err != nil {
 		die("%v", err)
 	}
-	fmt.Printf("instrument: module=%s sites=%d packages=%d\n", modpath, site, len(pkgs))
+	fmt.Printf("instrument: module=%s sites=%d sync-sites=%d critical-section-sites=%d packages=%d\n", modpath, site, len(syncSites), len(critSites), len(pkgs))
 }
